@@ -169,6 +169,22 @@ pub mod h_c15 {
 pub mod h_c13 {
     use super::*;
     harnesses! {
+        #[kani::stub(backtrace::backtrace::trace, crate::p_synth::trace_stub)] #[kani::unwind(70)] synth_ct_bad_ds_odd => p_synth::concrete_text::<_, 0>;
+        #[kani::stub(backtrace::backtrace::trace, crate::p_synth::trace_stub)] #[kani::unwind(70)] synth_ct_bad_ds_nonhex => p_synth::concrete_text::<_, 1>;
+        #[kani::stub(backtrace::backtrace::trace, crate::p_synth::trace_stub)] #[kani::unwind(70)] synth_ct_bad_octet256 => p_synth::concrete_text::<_, 2>;
+        #[kani::stub(backtrace::backtrace::trace, crate::p_synth::trace_stub)] #[kani::unwind(70)] synth_ct_bad_ttl_2e32 => p_synth::concrete_text::<_, 3>;
+        #[kani::stub(backtrace::backtrace::trace, crate::p_synth::trace_stub)] #[kani::unwind(70)] synth_ct_bad_pref_2e16 => p_synth::concrete_text::<_, 4>;
+        #[kani::stub(backtrace::backtrace::trace, crate::p_synth::trace_stub)] #[kani::unwind(70)] synth_ct_bad_txt_unbalanced => p_synth::concrete_text::<_, 5>;
+        #[kani::stub(backtrace::backtrace::trace, crate::p_synth::trace_stub)] #[kani::unwind(70)] synth_ct_bad_txt_escape300 => p_synth::concrete_text::<_, 6>;
+        #[kani::stub(backtrace::backtrace::trace, crate::p_synth::trace_stub)] #[kani::unwind(70)] synth_ct_bad_surplus_field => p_synth::concrete_text::<_, 7>;
+        #[kani::stub(backtrace::backtrace::trace, crate::p_synth::trace_stub)] #[kani::unwind(70)] synth_ct_bad_missing_field => p_synth::concrete_text::<_, 8>;
+        #[kani::stub(backtrace::backtrace::trace, crate::p_synth::trace_stub)] #[kani::unwind(70)] synth_ct_bad_class_ch => p_synth::concrete_text::<_, 9>;
+        #[kani::stub(backtrace::backtrace::trace, crate::p_synth::trace_stub)] #[kani::unwind(70)] synth_ct_bad_aaaa => p_synth::concrete_text::<_, 10>;
+        #[kani::stub(backtrace::backtrace::trace, crate::p_synth::trace_stub)] #[kani::unwind(70)] synth_ct_ok_a_boundary => p_synth::concrete_text::<_, 11>;
+        #[kani::stub(backtrace::backtrace::trace, crate::p_synth::trace_stub)] #[kani::unwind(70)] synth_ct_ok_mx_boundary => p_synth::concrete_text::<_, 12>;
+        #[kani::stub(backtrace::backtrace::trace, crate::p_synth::trace_stub)] #[kani::unwind(70)] synth_ct_ok_txt_escapes => p_synth::concrete_text::<_, 13>;
+        #[kani::stub(backtrace::backtrace::trace, crate::p_synth::trace_stub)] #[kani::unwind(70)] synth_ct_ok_ds => p_synth::concrete_text::<_, 14>;
+        #[kani::stub(backtrace::backtrace::trace, crate::p_synth::trace_stub)] #[kani::unwind(70)] synth_ct_ok_soa => p_synth::concrete_text::<_, 15>;
         #[kani::unwind(40)] synth_build_a => p_synth::builders::<_, 0>;
         #[kani::unwind(40)] synth_build_aaaa => p_synth::builders::<_, 1>;
         #[kani::unwind(40)] synth_build_ns => p_synth::builders::<_, 2>;
